@@ -138,6 +138,9 @@ Inductive command :=
 | CMove (ps : list nat) (dst : N)
 | CFetchBody (ps : list nat)       (* BODY[] : sets \Seen *)
 | CFetchFlagsBody (ps : list nat)  (* (FLAGS BODY[]) : as above, and every message reports its (new) flags *)
+| CFetchBodyRO (ps : list nat) (with_flags : bool)
+    (* the same two fetches by a session that selected with EXAMINE: nothing is marked \Seen anywhere - not in the
+       database, not in the session's own snapshot - and no flags are reported beyond the ones asked for *)
 | CProbe                           (* UID FETCH 1:* (FLAGS) *)
 | CSearch                          (* SEARCH ALL *)
 | CSearchBad                       (* SEARCH CHARSET X-UNKNOWN ALL : refused with NO; only the trailing flush runs *)
@@ -374,6 +377,20 @@ Definition do_cmd (w : world) (i : nat) (c : command) : world * list resp * outc
                   let parts := store_parts w0 ms FAdd [fl_seen] in
                   let w1 := store_db w0 sel ms FAdd [fl_seen] in
                   match finish_issued w1 i [UFlags sel parts i false] false (sel_permits "Fetch") with
+                  | Some (w', out, iss) => (w', data ++ out, if iss then OOkIssued else OOk)
+                  | None => fail
+                  end
+              end
+          | CFetchBodyRO ps with_flags =>
+              match msgs_at sn ps with
+              | None => (w, [], ONo)
+              | Some xs =>
+                  let data := if with_flags
+                              then map (fun x => match snap_seq_of (sm_id x) sn 1 with
+                                                 | Some k => PFetch k (sm_flags x) None
+                                                 | None => PFetch 0 [] None end) xs
+                              else [] in
+                  match finish_issued w i [] false (sel_permits "Fetch") with
                   | Some (w', out, iss) => (w', data ++ out, if iss then OOkIssued else OOk)
                   | None => fail
                   end
